@@ -493,6 +493,10 @@ class WrapperModel(Model):
         if is_bk(obj, 'list'):
             if idx[0] == 'slice':
                 st.emit('STATRESET', (obj, idx, val), line)
+            elif val[0] == 'bin' and val[2] == ('sub', obj, idx):
+                st.emit('STAT', (obj, idx, C(val[1]), val[3]), line)       # x[i] = x[i] + n  is  x[i] += n
+            elif val[0] == 'bin' and val[1] == '+' and val[3] == ('sub', obj, idx):
+                st.emit('STAT', (obj, idx, C('+'), val[2]), line)
             else:
                 st.emit('STATSET', (obj, idx, val), line)
             return [R(st, NONE)]
@@ -627,8 +631,7 @@ class WrapperModel(Model):
             op = {'>': '<', '<': '>', '>=': '<=', '<=': '>='}[op]
         if not (a[0] == 'ev' and a[1] == 'len'):
             return None
-        if b == MAXSIZE and 'maxsize' in self.state_consts:
-            b = C(self.state_consts['maxsize'])
+        b = self.fold(b)
         if not (is_const(b) and isinstance(b[1], int)):
             return None
         size = st.facts.get('lenver', {}).get(a, None)
@@ -653,6 +656,14 @@ class WrapperModel(Model):
                 return 0 <= c
         return None
 
+    def fold(self, t):
+        """substitute a pinned maxsize and fold integer arithmetic"""
+        if t == MAXSIZE and 'maxsize' in self.state_consts and isinstance(self.state_consts['maxsize'], int):
+            return C(self.state_consts['maxsize'])
+        if isinstance(t, tuple) and t and t[0] == 'bin':
+            return self.engine.binop(t[1], self.fold(t[2]), self.fold(t[3]))
+        return t
+
     def iterate(self, itval, st, node):
         # iteration that drives a bookkeeping pop: iter(bound(bk,'pop'), sentinel)
         hook = {}
@@ -676,6 +687,11 @@ class WrapperModel(Model):
             n = lower_bound(itval[2][0])
             src = itval[2][1]
             if n is not None and n >= 1 and contains_term(src, lambda t: t[0] == 'bkview' and t[3] is True):
+                hook['nonempty'] = True
+                return hook
+        if itval[0] == 'sub' and itval[2][0] == 'slice' and itval[2][1] == NONE and itval[1][0] == 'call' and libname(itval[1][1]) == 'sorted':
+            n = lower_bound(itval[2][2])
+            if n is not None and n >= 1 and itval[1][2] and contains_term(itval[1][2][0], lambda t: t[0] == 'bkview' and t[3] is True):
                 hook['nonempty'] = True
                 return hook
         if contains_term(itval, lambda t: t[0] == 'bkview' and t[3] is True) and itval[0] == 'bkview':
